@@ -768,7 +768,7 @@ def method_value(F, W, h, _stack=(), inline=True):
         hh = F.hir.get(cal)
         if not inline:
             return None
-        if hh is None or NUM not in cal or cal in _stack or hh is h or hh.get("kind") not in ("fn", "method"):
+        if hh is None or not (NUM in cal or cal.startswith("dmntk_feel_number::number::")) or cal in _stack or hh is h or hh.get("kind") not in ("fn", "method"):
             return None
         if len(_stack) > 4:
             return None
